@@ -497,6 +497,8 @@ class SymCtx:
                 from . import core as _core
                 from .runner import REGISTRY
                 _core._ENGINE = None
+                from . import procstate as _ps
+                _ps.restore()
                 c = ConcreteCtx(inputs_from_json(_jsonable(inputs)))
                 try:
                     REGISTRY[self.unit_info['harness']].fn(c, **self.unit_info['config'])
@@ -543,6 +545,7 @@ class SymCtx:
                 from . import core as _core
                 from .runner import REGISTRY
                 _core._ENGINE = None
+                from . import procstate as _ps
                 rnd = random.Random(hash((check_name, len(self.eng.decisions), self.eng.stats.paths)) & 0xffffffff)
                 fn = REGISTRY[self.unit_info['harness']].fn
                 for i in range(n):
@@ -567,6 +570,7 @@ class SymCtx:
                             inputs[k] = 0
                         else:
                             inputs[k] = bool(rnd.getrandbits(1))
+                    _ps.restore()
                     c = ConcreteCtx(inputs)
                     try:
                         fn(c, **self.unit_info['config'])
@@ -607,6 +611,73 @@ class SymCtx:
             return None
         try:
             return _json.loads(data.decode())
+        except Exception:
+            return None
+
+    def probe_any(self, n=48, seed=0):
+        """native probing of this work unit when symbolic execution could not proceed (an operation on a symbolic value that the
+        proxies do not model): n pseudo-random input assignments from the declared ranges, in a forked child.  Returns
+        (inputs, check name) of the first natively failing check, or None.  A hit goes to the fresh-interpreter replay like any
+        solver model; a miss decides nothing (the unit stays a harness error)."""
+        import os
+        import json as _json
+        import random
+        import select
+        r_fd, w_fd = os.pipe()
+        pid = os.fork()
+        if pid == 0:
+            out = b''
+            try:
+                os.close(r_fd)
+                from . import core as _core
+                from . import procstate as _ps
+                from .runner import REGISTRY
+                _core._ENGINE = None
+                rnd = random.Random(seed)
+                fn = REGISTRY[self.unit_info['harness']].fn
+                for i in range(n):
+                    _ps.restore()
+                    c = ConcreteCtx({}, rnd=rnd)
+                    try:
+                        fn(c, **self.unit_info['config'])
+                    except PathAbort:
+                        pass
+                    except Exception:
+                        pass
+                    if c.failures:
+                        out = _json.dumps({'inputs': c.inputs, 'check': c.failures[0].name}).encode()
+                        break
+            except BaseException:
+                out = b''
+            finally:
+                try:
+                    os.write(w_fd, out or b'-')
+                finally:
+                    os._exit(0)
+        os.close(w_fd)
+        data = b''
+        try:
+            while True:
+                ready, _, _ = select.select([r_fd], [], [], 240)
+                if not ready:
+                    break
+                chunk = os.read(r_fd, 65536)
+                if not chunk:
+                    break
+                data += chunk
+        finally:
+            os.close(r_fd)
+            try:
+                if not data:
+                    os.kill(pid, 9)
+                os.waitpid(pid, 0)
+            except OSError:
+                pass
+        if not data or data == b'-':
+            return None
+        try:
+            d = _json.loads(data.decode())
+            return d['inputs'], d['check']
         except Exception:
             return None
 
@@ -709,16 +780,34 @@ class ConcreteCtx:
     """native interpretation: inputs are numbers, checks are evaluated on real doubles"""
     symbolic = False
 
-    def __init__(self, inputs: Dict[str, Any]):
+    def __init__(self, inputs: Dict[str, Any], rnd=None):
         self.inputs = inputs
+        self.rnd = rnd                      # random mode (native probing): inputs not given are drawn from their declared ranges
         self.failures: List[ReplayFailure] = []
         self.passed = 0
         self.reached: Dict[str, int] = {}
         self.defaulted: List[str] = []
 
+    def _draw(self, lo, hi):
+        rnd = self.rnd
+        lo = -1e3 if lo is None else float(lo)
+        hi = 1e3 if hi is None else float(hi)
+        mode = rnd.random()
+        if mode < 0.15:
+            v = rnd.choice([lo, hi, 0.0, 1.0, -1.0])
+        elif mode < 0.55 and lo < hi:
+            span = min(hi - lo, 10.0)
+            base = 0.0 if lo <= 0.0 <= hi else lo
+            v = base + rnd.uniform(-span, span) if lo <= base - span else base + rnd.uniform(0, span)
+        else:
+            v = rnd.uniform(lo, hi)
+        return min(max(v, lo), hi)
+
     def real(self, name, lo=None, hi=None):
         if name in self.inputs:
             v = float(self.inputs[name])
+        elif self.rnd is not None:
+            v = self.inputs[name] = self._draw(lo, hi)
         else:
             self.defaulted.append(name)
             v = 1.0 if lo is None else float(lo)
@@ -727,15 +816,21 @@ class ConcreteCtx:
         return v
 
     def integer(self, name, lo, hi):
+        if name not in self.inputs and self.rnd is not None:
+            self.inputs[name] = self.rnd.randint(lo, hi)
         v = int(self.inputs.get(name, lo))
         if v < lo or v > hi:
             raise PathAbort('assume', f'input {name}={v} outside [{lo},{hi}]')
         return v
 
     def boolean(self, name):
+        if name not in self.inputs and self.rnd is not None:
+            self.inputs[name] = bool(self.rnd.getrandbits(1))
         return bool(self.inputs.get(name, False))
 
     def choice(self, name, n):
+        if n > 1 and name not in self.inputs and self.rnd is not None:
+            self.inputs[name] = self.rnd.randrange(n)
         return int(self.inputs.get(name, 0)) if n > 1 else 0
 
     def string(self, name, regex=None, max_len=12):
